@@ -106,7 +106,7 @@ func main() {
 		chainmc.ReplayFile(run, m)
 		return
 	}
-	run.SetBudget(6*60e9, 40*60e9)
+	run.SetBudget(6*60e9, 20*60e9)
 	depth := 3
 	if d := os.Getenv("VERIF_DEPTH"); d != "" {
 		fmt.Sscan(d, &depth)
